@@ -121,6 +121,9 @@ func (e *Exec) enterLoop(li *loopInfo, phiVals map[ssa.Value]Val, st *State) {
 			t := e.evalContractBool(inv.Expr, env, "invariant")
 			e.assume(Implies(e.guard(), t))
 		}
+		if spec.Decreases != nil {
+			li.variantHdr = e.evalContract(spec.Decreases.Expr, env, "loop variant").t
+		}
 		e.probe("loop" + li.ord)
 	}
 }
@@ -208,6 +211,11 @@ func (e *Exec) checkInvariants(li *loopInfo, from *ssa.BasicBlock, cond *Term) {
 			o.Extra = append(o.Extra, earlier...)
 			earlier = append(earlier, o.Goal)
 		}
+	}
+	if spec.Decreases != nil && li.variantHdr != nil {
+		// termination (C08 "never hangs"): on every back edge the variant was non-negative at the head and is smaller now
+		back := e.evalContract(spec.Decreases.Expr, env, "loop variant").t
+		e.oblige("decreases", "loop"+li.ord, And(Le(IntLit(0), li.variantHdr), Lt(back, li.variantHdr)), []string{"C08"}, spec.Decreases.Src)
 	}
 	e.curReach, e.curState = saveReach, saveState
 }
